@@ -402,7 +402,9 @@ def r20_5(ctx, f, rec, st, region, out, handle):
     # the loop iterates the parsed records of the input, unfiltered
     loops = [n for n in walk_own(f.node) if isinstance(n, ast.For) and any(x is st for x in ast.walk(n))]
     ok_it = bool(loops) and "read_file" in norm(loops[-1].iter)
-    skip = [s for s in walk_stmts(region) if isinstance(s, (ast.Continue, ast.Break))]
+    from ..core import own_loop_jumps
+
+    skip = own_loop_jumps(region)
     ctx.check(ok_it and not skip, "R20.5", f.where(st), "the loop runs over every parsed record of the input (no continue/break)", key_of(f, "record-loop"))
 
 
